@@ -535,4 +535,25 @@ theorem c09_concrete_crossing_deletes_of_different_child_sas (ca cb ca' cb' : Ch
 example : (crossingDeleteExchange exKa1 exKb2 exA exB).map (fun x => (x.1.me.ext.kids, x.2.me.ext.kids)) = some ([], []) := by
   decide +kernel
 
+/-- **sessions with crossing exchanges** (`xRun`): conversations started by one end — CHILD_SA creations, rekeys, deletions, IKE_SA rekeys —
+    and pairs of CHILD_SA requests or of deletes that cross, in any order: if the session runs to the end, the ends agree at the end -/
+theorem c09_concrete_any_session_with_crossing_exchanges_keeps_the_ends_agreed (now fuel : Nat) (ops : List XOp) (a b a' b' : HSt)
+    (h : Agree a b) (hx : xRun now fuel (a, b) ops = some (a', b')) : Agree a' b' :=
+  Agree.xRun now fuel ops a b a' b' h hx
+
+/-- … from two objects that hold nothing -/
+theorem c09_concrete_whole_life_with_crossing_exchanges (now fuel : Nat) (c : Child) (ops : List XOp) (a b a1 b1 a' b' : HSt)
+    (hak : a.me.ext.kids = []) (hbk : b.me.ext.kids = []) (hcookie : b.me.core.cookie = false) (hbi : b.me.core.isInit = false)
+    (hbp : b.me.core.peerSpi = a.me.core.mySpi) (hp23 : c.proposal.proto = 2 ∨ c.proposal.proto = 3)
+    (h1 : initExchange now (fuel + 2) c a b = some (a1, b1)) (h2 : xRun now fuel (a1, b1) ops = some (a', b')) : Agree a' b' :=
+  Agree.xRun now fuel ops a1 b1 a' b' (initExchange_agree now fuel c a b a1 b1 hak hbk hcookie hbi hbp hp23 h1).1 h2
+
+/-- non-vacuity: two ACQUIREs that cross, then two deletes that cross (each end deletes its first CHILD_SA — different ones): nothing left -/
+example : exKids (xRun 0 4 (exAX, exBX) [.crossChild exC0 exC1 none none]) =
+    some ([([9,9,9,9], [6,6,6,6], 3), ([7,7,7,7], [8,8,8,8], 3)], [([8,8,8,8], [7,7,7,7], 3), ([6,6,6,6], [9,9,9,9], 3)]) := by
+  decide +kernel
+example : exKids (xRun 0 4 (exAX, exBX) [.crossChild exC0 exC1 none none, .crossDelete 0 0]) = some ([], []) := by decide +kernel
+example : exStates (xRun 0 4 (exAX, exBX) [.crossChild exC0 exC1 none none, .crossDelete 0 0]) = some ([10, 10], [false, false]) := by
+  decide +kernel
+
 end PyIkev2.Props.C09
